@@ -135,7 +135,14 @@ fn gen_globals(rng: &mut Rng, lang: &'static str, pfx: &str, depth: usize) -> Ve
     ("num", json!({"kind": "number"})),
     ("str", json!({"kind": "string"})),
     ("lit", json!({"any": [{"matches": id("num")}, {"matches": id("str")}]})),
-    ("haslit", json!({"has": {"matches": inner, "stopBy": "end"}})),
+    // the reference sits inside a relation (not ordered by the loader's dependency sort) and is
+    // wrapped / accompanied by another matcher, so that a kind cache is built around it whichever
+    // utility happens to be constructed first
+    ("haslit", match rng.below(3) {
+      0 => json!({"has": {"matches": inner, "stopBy": "end"}}),
+      1 => json!({"has": {"all": [{"matches": inner}], "stopBy": "end"}}),
+      _ => json!({"has": {"matches": inner, "regex": "^[0-9'\"]", "stopBy": "end"}}),
+    }),
     ("call", json!({"kind": "call_expression", "matches": id("haslit")})),
     ("arg", json!({"any": [{"matches": id("call")}, {"matches": id("lit")}]})),
   ];
